@@ -1145,18 +1145,18 @@ class RlWriter:
                 img.margin[1] + img.margin[3] + img.padding[1] + img.padding[3]
             )
             height = width / aspect_ratio
-            if width > img.imgWidth:
+            if width > img.img_width:
                 scaled = img
             else:
                 scaled = Figure(
                     img.img_path,
                     img.caption_txt,
-                    img.cs,
+                    img.caption_style,
                     img_width=width,
                     img_height=height,
                     margin=img.margin,
                     padding=img.padding,
-                    border_color=img.borderColor,
+                    border_color=img.border_color,
                     url=img.url,
                 )
             scaled_images.append(scaled)
